@@ -2,29 +2,30 @@ import Momo.Model.HashTable
 /-
   Executable model of momo::HashMultiMap and of momo::stdish::unordered_multimap (C08).
 
-  Source mirrored:
+  Source mirrored (line numbers of the current /repo):
     details/ArrayBucket.h  (the value array stored next to every key)
-      pvMakeState / pvGetMemPoolIndex / pvGetFastCount   -> mkState / statePool / stateCount
-      pvGetBounds                                        -> VArr.count / VArr.bounds
-      AddBackCrt (lines 255-316)                         -> VArr.addBack
-      RemoveBack (lines 318-346)                         -> VArr.removeBack   (shrink rule, swallowed failure)
-      RemoveAll / Clear (pvRemoveAll)                    -> VArr.empty
-      ArrayBucket(Params&, const ArrayBucket&) (191-227) -> VArr.copy
-    Array.h  ArraySettings<>::GrowCapacity (add, not linear), Array::Shrink(capacity) -> growCap / shrinkCap
+      pvMakeState (375) / pvGetMemPoolIndex (386) / pvGetFastCount (392) -> mkState / statePool / stateCount
+      pvGetBounds (420)                                   -> VArr.count / VArr.bounds
+      AddBackCrt (262-320)                                -> VArr.addBack
+      RemoveBack (322-347)                                -> VArr.removeBack   (shrink rule, swallowed failure)
+      RemoveAll / Clear (pvRemoveAll, 438)                -> VArr.empty
+      ArrayBucket(Params&, const ArrayBucket&) (192-229)  -> VArr.copy
+    Array.h  ArraySettings<>::GrowCapacity (160-178; cause add, not linear), Array::Shrink(capacity) (751-765)
+                                                          -> growBase / growCap / shrinkCap
     HashMultiMap.h
-      pvAdd / AddCrt(key, …) / AddCrt(keyIter, …) / pvAddValue   -> MM.add
-      InsertKey / AddKeyCrt                                       -> MM.insertKey
-      Remove(keyIter, valueIndex) / Remove(iter)                  -> MM.removeValue  (VArr.removeAt)
-      Remove(pairFilter)                                          -> MM.removeIf     (VArr.removeIf)
-      RemoveValues / pvRemoveValues                               -> MM.removeValues
-      RemoveKey(keyIter) / RemoveKey(key)                         -> MM.removeKey
-      ResetKey                                                    -> MM.resetKey
-      Clear                                                       -> MM.clear
-      copy constructor (Reserve + Insert in traversal order)      -> MM.copy
-      HashMultiMapIterator::pvMove, operator++, GetBegin          -> skipEmpty / itMove / itNext / MM.iterAll
+      pvAdd (1228) / AddCrt(key, …) / AddCrt(keyIter, …) (993) / pvAddValue (1246)   -> MM.add
+      InsertKey (1040-1048) / AddKeyCrt (1051)                     -> MM.insertKey
+      Remove(keyIter, valueIndex) (1065) / Remove(iter) (1071)     -> MM.removeValue  (VArr.removeAt)
+      Remove(pairFilter) (1090)                                    -> MM.removeIf     (VArr.removeIf)
+      RemoveValues (1104) / pvRemoveValues (1254)                  -> MM.removeValues
+      RemoveKey(keyIter) (1112) / RemoveKey(key) (1131)            -> MM.removeKey
+      ResetKey (1142)                                              -> MM.resetKey
+      Clear (884)                                                  -> MM.clear
+      copy constructor (770-799: Reserve + Insert in traversal order) -> MM.copy
+      HashMultiMapIterator::pvMove (286), operator++, GetBegin     -> skipEmpty / itMove / itDeref / MM.iterAll
     stdish/unordered_multimap.h
-      count / equal_range / find / erase(key) / erase(iterator) / erase(first,last) / erase_if /
-      operator==                                                  -> w* functions at the end
+      count (418) / equal_range, find (pvEqualRange, 665) / erase(key) (596) / erase(iterator) (554) /
+      erase(first,last) (569-594) / erase_if (602, 786) / operator== (627-645)  -> w* functions at the end
 
   The key map (a momo::HashMap<Key, ValueArray>) is a parameter: a record `KeyMap σ` of the
   operations HashMultiMap calls.  The instance run by the driver is the C01 model `Momo.HT`
